@@ -32,6 +32,25 @@ def static_part(expr):
     return expr
 
 
+def fit_columns(linear, num_col):
+    """
+    Coefficients of a decision expression with exactly num_col columns:
+    an expression built before later decision variables were declared is
+    narrower than the final model and gets zero columns for them.
+    """
+
+    if linear.shape[1] > num_col:
+        return linear[:, :num_col]
+    if linear.shape[1] < num_col:
+        if sp.issparse(linear):
+            linear = sp.csr_matrix(linear, copy=True)
+            linear.resize((linear.shape[0], num_col))
+        else:
+            pad = np.zeros((linear.shape[0], num_col - linear.shape[1]))
+            linear = np.hstack((linear, pad))
+    return linear
+
+
 class Model:
     """
     Returns a model object with the given number of scenarios.
@@ -519,8 +538,10 @@ class Model:
 
                     return self.ro_to_roc(left) + self.ro_to_roc(right)
 
-                raf_linear, aff_linear = (constr.raffine.linear[:, :num_var],
-                                          constr.affine.linear[:, :num_var])
+                raf_linear, aff_linear = (fit_columns(constr.raffine.linear,
+                                                      num_var),
+                                          fit_columns(constr.affine.linear,
+                                                      num_var))
 
                 row_ind = np.unique(raf_linear.indices)
                 if isinstance(drule, RoAffine):
@@ -552,7 +573,7 @@ class Model:
                     raise TypeError('Unknown type.')
 
             elif isinstance(constr, DecLinConstr):
-                linear = constr.linear
+                linear = fit_columns(constr.linear, num_var)
                 const = constr.const
                 roaffine = linear @ drule - const.reshape(const.size)
                 if isinstance(roaffine, RoAffine):
@@ -590,7 +611,7 @@ class Model:
                 else:
                     raise TypeError('Unknown type.')
             elif isinstance(constr, DecPCvxConstr):
-                linear_in = constr.affine_in.linear
+                linear_in = fit_columns(constr.affine_in.linear, num_var)
                 const_in = constr.affine_in.const
                 aff_in = linear_in@drule + const_in.reshape(const_in.size)
                 aff_in = aff_in.reshape(constr.affine_in.shape)
@@ -599,7 +620,7 @@ class Model:
                     aff_scale = constr.affine_scale
                 else:
                     scale = constr.affine_scale.to_affine()
-                    linear_sc = scale.linear
+                    linear_sc = fit_columns(scale.linear, num_var)
                     const_sc = scale.const
                     aff_scale = linear_sc@drule + const_sc.reshape(const_sc.size)
                     aff_scale = static_part(aff_scale)
@@ -610,7 +631,8 @@ class Model:
                     linear_out = np.zeros((constr.affine_out.size, drule.shape[0]))
                     const_out = constr.affine_out
                 else:
-                    linear_out = constr.affine_out.linear
+                    linear_out = fit_columns(constr.affine_out.linear,
+                                             num_var)
                     const_out = constr.affine_out.const
                 aff_out = linear_out@drule + const_out.reshape(const_out.size)
                 aff_out = static_part(aff_out)
@@ -619,7 +641,7 @@ class Model:
                 ew_constr = PCvxConstr(aff_in.model, aff_in, aff_scale, aff_out,
                                        constr.multiplier, constr.xtype)
             elif isinstance(constr, DecCvxConstr):
-                linear_in = constr.affine_in.linear
+                linear_in = fit_columns(constr.affine_in.linear, num_var)
                 const_in = constr.affine_in.const
                 aff_in = linear_in@drule + const_in.reshape(const_in.size)
                 aff_in = aff_in.reshape(constr.affine_in.shape)
@@ -628,7 +650,8 @@ class Model:
                     linear_out = np.zeros((constr.affine_out.size, drule.shape[0]))
                     const_out = constr.affine_out
                 else:
-                    linear_out = constr.affine_out.linear
+                    linear_out = fit_columns(constr.affine_out.linear,
+                                             num_var)
                     const_out = constr.affine_out.const
                 aff_out = linear_out@drule + const_out.reshape(const_out.size)
                 aff_out = aff_out.reshape(constr.affine_out.shape)
@@ -638,13 +661,14 @@ class Model:
                                       params=constr.params)
             elif isinstance(constr, DecExpConstr):
                 affine1 = constr.expr1.to_affine()
-                expr1 = static_part(affine1.linear@drule + affine1.const)
+                linear1 = fit_columns(affine1.linear, num_var)
+                expr1 = static_part(linear1@drule + affine1.const)
 
                 if isinstance(constr.expr2, Real):
                     expr2 = constr.expr2
                 else:
                     affine2 = constr.expr2.to_affine()
-                    linear2 = affine2.linear
+                    linear2 = fit_columns(affine2.linear, num_var)
                     const2 = affine2.const
                     expr2 = static_part(linear2@drule + const2)
 
@@ -652,14 +676,15 @@ class Model:
                     expr3 = constr.expr3
                 else:
                     affine3 = constr.expr3.to_affine()
-                    linear3 = affine3.linear
+                    linear3 = fit_columns(affine3.linear, num_var)
                     const3 = affine3.const
                     expr3 = static_part(linear3@drule + const3)
 
                 ew_constr = ExpConstr(expr1.model, expr1, expr2, expr3)
 
             elif isinstance(constr, DecLMIConstr):
-                lmi_left = static_part(constr.linear @ drule -
+                lmi_linear = fit_columns(constr.linear, num_var)
+                lmi_left = static_part(lmi_linear @ drule -
                                        constr.const.flatten())
                 lmi_linear = lmi_left.linear
                 lmi_const = (-lmi_left.const).reshape((constr.dim, constr.dim))
@@ -718,22 +743,22 @@ class Model:
             raffines = []
             for piece in constr.pieces:
                 if isinstance(piece, DecLinConstr):
-                    linears.append(piece.linear)
+                    linears.append(fit_columns(piece.linear, num_var))
                     const = - piece.const
                     consts.append(const.reshape((const.size, 1)))
                     raffines.append(None)
                 else:
-                    linears.append(piece.affine.linear)
+                    linears.append(fit_columns(piece.affine.linear, num_var))
                     const = piece.affine.const
                     consts.append(const.reshape((const.size, 1)))
                     raffines.append(piece.raffine)
         elif isinstance(constr, DecLinConstr):
-            linears = [constr.linear]
+            linears = [fit_columns(constr.linear, num_var)]
             const = - constr.const
             consts = [const.reshape((const.size, 1))]
             raffines = [None]
         else:
-            linears = [constr.affine.linear]
+            linears = [fit_columns(constr.affine.linear, num_var)]
             const = constr.affine.const
             consts = [const.reshape([const.size, 1])]
             raffines = [constr.raffine]
@@ -767,7 +792,8 @@ class Model:
                         else:
                             raise TypeError('Incorrect data type.')
                         row_ind = i*num_rand + np.arange(num_rand, dtype=int)
-                        new_raffine = raffine.linear[row_ind] @ temp
+                        new_raffine = fit_columns(raffine.linear[row_ind],
+                                                  num_var) @ temp
                         new_raffine = new_raffine.reshape((1, new_raffine.size))
                         new_raffine += raffine.const[i, :num_rand] + extra
                         left = RoAffine(new_raffine, left, self.sup_model)
